@@ -64,6 +64,24 @@ func corpus() []*Case {
 		&Config{Policies: []Policy{{"Netspoc-v1", []Rule{
 			{Id: "deny", Direction: "OUT", Action: "DROP", Seq: 30, Scope: []string{"/infra/tier-0s/v1"}, IPProto: "IPV4", Service: "ANY", Src: "ANY", Dst: "10.1.1.10"},
 			{Id: "deny-1", Direction: "OUT", Action: "DROP", Seq: 30, Scope: []string{"/infra/tier-0s/v1"}, IPProto: "IPV4", Service: "ANY", Src: "ANY", Dst: "10.1.1.20"}}}}})
+	// target groups X and X-1 (both list orders), rules Y and Y-1, device objects X and Y with other content:
+	// the renamed ids must avoid the other names of the target whatever the list order is
+	for _, order := range [][]string{{"Netspoc-dmz", "Netspoc-dmz-1"}, {"Netspoc-dmz-1", "Netspoc-dmz"}} {
+		for _, rorder := range [][]string{{"deny", "deny-1"}, {"deny-1", "deny"}} {
+			dr := Rule{Id: "deny", Direction: "OUT", Action: "REJECT", Seq: 90, Scope: []string{"/infra/tier-0s/v1"}, IPProto: "IPV4",
+				Service: "ANY", Src: g("dmz"), Dst: "10.9.9.9"}
+			mk := func(id, grp string, seq int) Rule {
+				return Rule{Id: id, Direction: "IN", Action: "DROP", Seq: seq, Scope: []string{"/infra/tier-0s/v1"}, IPProto: "IPV4",
+					Service: "ANY", Src: gpath(grp), Dst: "ANY"}
+			}
+			addrs := map[string][]string{"Netspoc-dmz": {"10.1.1.20", "10.1.1.30"}, "Netspoc-dmz-1": {"10.1.1.40"}}
+			add("suffix-ids-"+order[0]+"-"+rorder[0],
+				&Config{Groups: []Group{grp("Netspoc-dmz", "10.1.1.10")}, Policies: []Policy{{"Netspoc-v1", []Rule{dr}}}},
+				&Config{Policies: []Policy{{"Netspoc-v1", nil}}},
+				&Config{Groups: []Group{grp(order[0], addrs[order[0]]...), grp(order[1], addrs[order[1]]...)},
+					Policies: []Policy{{"Netspoc-v1", []Rule{mk(rorder[0], order[0], 50), mk(rorder[1], order[1], 51)}}}})
+		}
+	}
 	// witness: raw policy whose id lacks the prefix
 	add("raw-policy-without-prefix",
 		&Config{},
